@@ -156,9 +156,10 @@ class FractionScalar(AbstractValueWithQuantityObject):
         result = FractionValue(number=converted_number)
         # convert fraction's numerator
         if fraction_value.GetFraction() is not None:
+            # the numerator is an increment, so any offset of the conversion must not be applied
             converted_numerator = convert_to_quantity.ConvertScalarValue(
                 fraction_value.GetFraction().numerator, to_unit
-            )
+            ) - convert_to_quantity.ConvertScalarValue(0.0, to_unit)
 
             converted_fraction = copy.copy(fraction_value.GetFraction())
             converted_fraction.numerator = converted_numerator
